@@ -51,6 +51,24 @@ def is_sort(t):
     return isinstance(t, tuple) and t[0] == "Sort"
 
 
+def sort_args(t):
+    """Argument sorts of an instance of a parametric sort: ("Sort", "P{S2, Int}") -> [("Sort", "S2"), "Int"]."""
+    if not is_sort(t) or "{" not in t[1]:
+        return []
+    rest = t[1].split("{", 1)[1][:-1]
+    parts, depth, cur = [], 0, ""
+    for ch in rest:
+        if ch == "," and depth == 0:
+            parts.append(cur.strip())
+            cur = ""
+            continue
+        depth += ch == "{"
+        depth -= ch == "}"
+        cur += ch
+    parts.append(cur.strip())
+    return [a if a in ("Int", "Real", "Bool", "String") else ("Sort", a) for a in parts]
+
+
 def is_fun(t):
     return isinstance(t, tuple) and t[0] == "Fun"
 
